@@ -31,6 +31,8 @@ import zlib
 
 import greenlet
 
+from mc import modstate
+
 
 class ScheduleError(Exception):
     """A recorded choice is outside the range of enabled actors."""
@@ -197,6 +199,7 @@ def explore(make_run, on_trace, max_preemptions=None, time_cap=None,
         stopped = False
         while lst:
             prefix, want = lst.pop()
+            modstate.reset()
             tr = make_run(prefix)
             if want is not None and not _same_prefix(tr, want):
                 raise ReplayDivergence(
